@@ -20,10 +20,19 @@ type crcApp struct{ s, b, r *Term }
 
 // crcStep models one byte of crc32.Update (external representation).
 func (p *Path) crcStep(s, b *Term) *Term {
-	if s.IsConst() && b.IsConst() {
-		return ConstT(32, uint64(crc32.Update(uint32(s.Val), castagnoli, []byte{byte(b.Val)})))
-	}
 	apps, _ := p.ghost["crcapps"].([]crcApp)
+	if p.ghost == nil {
+		p.ghost = map[string]Value{}
+	}
+	if s.IsConst() && b.IsConst() {
+		r := ConstT(32, uint64(crc32.Update(uint32(s.Val), castagnoli, []byte{byte(b.Val)})))
+		// concrete applications are remembered too (bounded), so that a later
+		// symbolic application at the same state or byte is tied to them
+		if !p.eng.noCRCLemmas && len(apps) < 600 {
+			p.ghost["crcapps"] = append(apps, crcApp{s, b, r})
+		}
+		return r
+	}
 	// the same step over the same terms (a checksum recomputed over bytes read
 	// back from a buffer) is the same application
 	for _, a := range apps {
@@ -39,9 +48,11 @@ func (p *Path) crcStep(s, b *Term) *Term {
 		// s equal, b different  => results differ;  b equal, s different => results differ
 		p.addPC(Implies(And(Eq(a.s, s), Not(Eq(a.b, b))), Not(Eq(a.r, r))))
 		p.addPC(Implies(And(Not(Eq(a.s, s)), Eq(a.b, b)), Not(Eq(a.r, r))))
-	}
-	if p.ghost == nil {
-		p.ghost = map[string]Value{}
+		if a.r.IsConst() {
+			// a concrete application is not an uninterpreted term: state its
+			// functional consistency with the new one explicitly
+			p.addPC(Implies(And(Eq(a.s, s), Eq(a.b, b)), Eq(a.r, r)))
+		}
 	}
 	p.ghost["crcapps"] = append(apps, crcApp{s, b, r})
 	return r
